@@ -320,6 +320,32 @@ func buildPlug4(a req4abs, p pre4abs, own net.IP, r *rand.Rand) (*dhcpv4.DHCPv4,
 		vc := []string{"PXEClient", "PXEClient:Arch:00000:UNDI:002001", "HTTPClient", "HTTPClient:Arch:", "HTTPClient:Arch:16", "HTTPClient:Arch:00016:UNDI:003001", "MSFT 5.0", ""}[r.Intn(8)]
 		req.Options[uint8(dhcpv4.OptionClassIdentifier)] = []byte(vc)
 	}
+	if r.Intn(3) == 0 {
+		// options no plugin's table reads (round 9): a well-formed Relay Agent Information option with circuit id, link selection
+		// (RFC 3527) and server identifier override (RFC 5107, naming this / another / a random server), Rapid Commit (RFC 4039),
+		// subnet selection, client architecture
+		rai := []byte{1, 3, 'e', 't', 'h'}
+		if r.Intn(2) == 0 {
+			rai = append(rai, 5, 4, 10, 7, byte(r.Intn(256)), 0)
+		}
+		if r.Intn(3) != 0 {
+			ov := net.IPv4(198, 51, 100, byte(1+r.Intn(250))).To4()
+			if own != nil && r.Intn(3) == 0 {
+				ov = own.To4()
+			}
+			rai = append(rai, 11, 4, ov[0], ov[1], ov[2], ov[3])
+		}
+		req.Options[uint8(dhcpv4.OptionRelayAgentInformation)] = rai
+		if r.Intn(2) == 0 {
+			req.Options[80] = []byte{}
+		}
+		if r.Intn(2) == 0 {
+			req.Options[118] = []byte{10, 7, byte(r.Intn(256)), 0}
+		}
+		if r.Intn(2) == 0 {
+			req.Options[93] = []byte{0, byte(r.Intn(17))}
+		}
+	}
 	if ip := fourWayIP(a.siaddr, own); ip != nil {
 		req.ServerIPAddr = ip
 	}
